@@ -23,12 +23,15 @@ Inductive astmt : Set :=
 (* for <targets> in <iterable reading uses>: the iterable is evaluated once; every iteration assigns the targets
    inside the body function (`def loop_body(itr): nonlocal ...; <targets> = itr; ...`); ext = the flag of the
    extra loop test `not flag` that break / return lowering attaches to the loop: it is tested before every
-   item is pulled from the iterator (ag__.for_stmt: once before the loop and after every body call) *)
-| AFor (l : label) (uses targets : list var) (ext : option var) (L : list var) (body : ablock)
+   item is pulled from the iterator (ag__.for_stmt: once before the loop and after every body call); with a
+   lowered return as well the test is `not do_return and not break_`: ext lists the flags *)
+| AFor (l : label) (uses targets : list var) (ext : list var) (L : list var) (body : ablock)
 (* exceptions: explicit raise; try / except / else / finally stays a native statement (its clauses contain
    rewritten statements); the handler a raised exception goes to is chosen by the next decision (an index past
    the last handler: none matches) *)
 | ARaise (l : label) (uses : list var)
+| AWith (l : label) (uses defs : list var) (body : ablock)   (* native `with ... as defs`: the manager is evaluated, the body runs in place
+                                                           (a manager that swallows exceptions is not modelled) *)
 | ATry (body : ablock) (hs : ahandlers) (orelse final : ablock)
 with ablock : Set :=
 | ANil
@@ -51,10 +54,13 @@ Variable F : label -> nat -> list val -> val.     (* the value a statement gives
 Variable truthy : val -> bool.                    (* the truth value of a flag *)
 
 (* does the extra test stop the loop?  None: the flag is unbound *)
-Definition ext_stop (ext : option var) (s : store) : option bool :=
+Fixpoint ext_stop (ext : list var) (s : store) : option bool :=
   match ext with
-  | None => Some false
-  | Some x => match s x with None => None | Some v => Some (truthy v) end
+  | [] => Some false
+  | x :: r => match s x, ext_stop r s with
+              | Some v, Some b => Some (truthy v || b)
+              | _, _ => None
+              end
   end.
 
 Fixpoint write (s : store) (l : label) (vs : list val) (i : nat) (ds : list var) : store :=
@@ -132,6 +138,15 @@ Fixpoint run_stmt (fn : bool) (n : nat) (st : astmt) (s : store) (d : decisions)
         | None => None
         | Some vs => Some ([(l, vs)], FR, s, d)
         end
+    | AWith l us ds body =>
+        match reads s us with
+        | None => None
+        | Some vs =>
+            match run_block fn n' body (write s l vs 0 ds) d with
+            | None => None
+            | Some (tr, o, s1, d1) => Some ((l, vs) :: tr, o, s1, d1)
+            end
+        end
     | ATry body hs orelse final =>
         match run_block fn n' body s d with
         | None => None
@@ -156,7 +171,7 @@ Fixpoint run_stmt (fn : bool) (n : nat) (st : astmt) (s : store) (d : decisions)
         end
     end
   end
-with run_for (fn : bool) (n : nat) (l : label) (tg : list var) (ext : option var) (L : list var) (body : ablock)
+with run_for (fn : bool) (n : nat) (l : label) (tg : list var) (ext : list var) (L : list var) (body : ablock)
              (vs : list val) (k : nat) (s : store) (d : decisions) {struct n} : res :=
   match n with
   | 0 => None
@@ -213,6 +228,7 @@ Fixpoint raises_stmt (st : astmt) : bool :=
   | AIf _ _ _ b1 _ b2 => raises_block b1 || raises_block b2
   | AWhile _ _ _ body | AFor _ _ _ _ _ body => raises_block body
   | ARaise _ _ => true
+  | AWith _ _ _ body => raises_block body
   | ATry body hs orelse final => raises_block body || raises_hs hs || raises_block orelse || raises_block final
   end
 with raises_block (b : ablock) : bool :=
@@ -239,9 +255,10 @@ Fixpoint chk_stmt (st : astmt) (li out X : list var) {struct st} : bool :=
       && chk_block body li X && disjoint L li && (negb (raises_block body) || disjoint L X)
   | AFor _ us tg ext L body =>
       subset us li && subset (minus (lin body li) tg) li && subset out li
-      && chk_block body li X && disjoint L li && match ext with None => true | Some x => mem x li end
+      && chk_block body li X && disjoint L li && subset ext li
       && (negb (raises_block body) || disjoint L X)
   | ARaise _ us => subset us li && subset X li
+  | AWith _ us ds body => subset us li && subset (minus (lin body out) ds) li && chk_block body out X
   | ATry body hs orelse final =>
       let Fn := lin final out in            (* the finally clause is entered normally ... *)
       let Fx := lin final X in              (* ... or with an exception propagating *)
